@@ -375,7 +375,40 @@ def check_linear(c):
     return res
 
 
-CHECKERS = {'mono': check_mono, 'linear': check_linear}
+def check_faces(c):
+    """Points exactly on the faces and corners of the box belong to the box: for every box of a decimal lattice (most bounds are not binary
+    fractions) the dense and the TT routine return the function value there, not the fill value."""
+    res = Res()
+    a, b = c['a'], c['b']
+    d = len(a)
+    n = 3
+    xs = [nodes(a[k], b[k], n) for k in range(d)]
+    f1 = [1.0 + 0.5 * xs[k] + 0.25 * xs[k] ** 2 for k in range(d)]          # degree 2 < n in every variable
+    Yd = f1[0]
+    for v in f1[1:]:
+        Yd = np.multiply.outer(Yd, v)
+    with warnings.catch_warnings():
+        warnings.simplefilter('ignore')
+        Ad = teneva.func_int_full(Yd)
+        A = teneva.func_int([v.reshape(1, -1, 1).copy() for v in f1]) if d >= 2 else None
+    pts = np.array(list(itertools.product(*[(a[k], b[k], (a[k] + b[k]) / 2) for k in range(d)])))
+    want = np.prod([1.0 + 0.5 * pts[:, k] + 0.25 * pts[:, k] ** 2 for k in range(d)], axis=0)
+    tol = 1e-12 * max(1.0, np.abs(want).max())
+    res.ev()
+    with warnings.catch_warnings():
+        warnings.simplefilter('ignore')
+        g = teneva.func_get_full(pts, Ad, a, b, z=-777.0)
+    res.check(np.abs(g - want).max() <= tol, 'faces.full', c, lambda: 'func_get_full on faces / corners: %s, exact %s' % (g.tolist(), want.tolist()))
+    if A is not None:
+        with warnings.catch_warnings():
+            warnings.simplefilter('ignore')
+            g2 = teneva.func_get(pts, A, a, b, z=-777.0)
+        res.check(np.abs(g2 - want).max() <= tol, 'faces.tt', c, lambda: 'func_get on faces / corners: %s, exact %s' % (g2.tolist(), want.tolist()))
+    res.nt((tuple(a), tuple(b)))
+    return res
+
+
+CHECKERS = {'faces': check_faces, 'mono': check_mono, 'linear': check_linear}
 
 
 def strata(tier, seed):
@@ -404,6 +437,10 @@ def strata(tier, seed):
         for box in (['sym1'], ['asym'], ['unit']):
             cs.append(dict(shape=[n], box=box, ms=[2, n + 3], few=True, seed=seed))
             cs.append(dict(shape=[n, 4], box=box * 2, ms=[3], few=True, seed=seed))
+    dec = [-3.0, -1.1, -0.7, -0.3, 0.0, 0.1, 0.2, 0.3, 0.6, 0.7, 0.9, 1.1, 2.3]
+    pairs = [(x, y) for x in dec for y in dec if x < y]
+    fc = [dict(a=[x], b=[y]) for x, y in pairs] + [dict(a=[x, pairs[(j * 7 + 3) % len(pairs)][0]], b=[y, pairs[(j * 7 + 3) % len(pairs)][1]]) for j, (x, y) in enumerate(pairs)]
+    yield Stratum('faces and corners of every box of a decimal lattice', fc, 'faces', seq=True, size=len(fc), chunk=8, bounds={'bounds': dec})
     yield Stratum('all monomials', cs, 'mono', size=len(cs), chunk=4, bounds={'d': [1, 3], 'n': [2, top]})
     ls = [dict(n=n, box=bk, d=d, rank=rk, ms=[2, 3, 7], seed=seed)
           for n in range(2, (6 if tier == 'quick' else 9)) for bk in single for d in (1, 2, 3) for rk in (2, 3)
